@@ -1,0 +1,31 @@
+//go:build verif
+
+// Contracts for cmd/csvimport, read by /verif/govc (contract-based deductive verification).
+// This file contains comments only and is compiled only under the build tag "verif".
+package main
+
+//@ spec pred cfgOK(cfg importCfg, n int) { len(cfg.colTypes) >= len(cfg.srcCols) &&
+//@        (forall i int :: 0 <= i && i < len(cfg.srcCols) ==> 0 <= cfg.srcCols[i] && cfg.srcCols[i] < n) }
+//@ spec pred knownType(t storage.DataType) { t == storage.TypeInt || t == storage.TypeBigInt || t == storage.TypeVarchar || t == storage.TypeBoolean }
+
+//@ func csvToSql(cfg importCfg, csvRow []string) ([]interface{}, error)
+//@   props C19
+//@   requires cfgOK(cfg, len(csvRow))
+//@   modifies nothing
+//@   ensures[shape; C19] len(result0) == len(cfg.srcCols) && fresh(result0)
+//@   ensures[null; C19] err == nil ==> forall i int :: 0 <= i && i < len(cfg.srcCols) && csvRow[cfg.srcCols[i]] == "\\N" ==> result0[i] == nil
+//@   ensures[notnull; C19] err == nil ==> forall i int :: 0 <= i && i < len(cfg.srcCols) && csvRow[cfg.srcCols[i]] != "\\N" && knownType(cfg.colTypes[i]) ==> result0[i] != nil
+//@   ensures[int; C19] err == nil ==> forall i int :: 0 <= i && i < len(cfg.srcCols) && csvRow[cfg.srcCols[i]] != "\\N" &&
+//@              (cfg.colTypes[i] == storage.TypeInt || cfg.colTypes[i] == storage.TypeBigInt) ==>
+//@              strAtoiOK(csvRow[cfg.srcCols[i]]) && result0[i] == int64(strAtoi(csvRow[cfg.srcCols[i]]))
+//@   ensures[varchar; C19] err == nil ==> forall i int :: 0 <= i && i < len(cfg.srcCols) && csvRow[cfg.srcCols[i]] != "\\N" && cfg.colTypes[i] == storage.TypeVarchar ==>
+//@              result0[i] == csvRow[cfg.srcCols[i]]
+//@   ensures[bool; C19] err == nil ==> forall i int :: 0 <= i && i < len(cfg.srcCols) && csvRow[cfg.srcCols[i]] != "\\N" && cfg.colTypes[i] == storage.TypeBoolean ==>
+//@              typeof(result0[i]) == typ(bool)
+//@   loop 1 invariant len(sqlRow) == len(cfg.srcCols) && fresh(sqlRow)
+//@   loop 1 invariant forall k int :: 0 <= k && k <= rangeindex && csvRow[cfg.srcCols[k]] == "\\N" ==> sqlRow[k] == nil
+//@   loop 1 invariant forall k int :: 0 <= k && k <= rangeindex && csvRow[cfg.srcCols[k]] != "\\N" && knownType(cfg.colTypes[k]) ==> sqlRow[k] != nil
+//@   loop 1 invariant forall k int :: 0 <= k && k <= rangeindex && csvRow[cfg.srcCols[k]] != "\\N" && (cfg.colTypes[k] == storage.TypeInt || cfg.colTypes[k] == storage.TypeBigInt) ==>
+//@              strAtoiOK(csvRow[cfg.srcCols[k]]) && sqlRow[k] == int64(strAtoi(csvRow[cfg.srcCols[k]]))
+//@   loop 1 invariant forall k int :: 0 <= k && k <= rangeindex && csvRow[cfg.srcCols[k]] != "\\N" && cfg.colTypes[k] == storage.TypeVarchar ==> sqlRow[k] == csvRow[cfg.srcCols[k]]
+//@   loop 1 invariant forall k int :: 0 <= k && k <= rangeindex && csvRow[cfg.srcCols[k]] != "\\N" && cfg.colTypes[k] == storage.TypeBoolean ==> typeof(sqlRow[k]) == typ(bool)
